@@ -170,6 +170,7 @@ class Graph(object):
         self.located = {}            # vertex -> (x, y)
         self.same_chip = []          # [[v, ...]]
         self.sdram_max = 2000
+        self.broadcasts = 0
 
     def describe(self):
         return "%d vertices (%s), %d nets, %d location, %d same-chip groups, %d " \
@@ -218,7 +219,14 @@ def add_net(t, g, par, max_fanout=12):
         return alias(v) if g.vkind in ("eq", "tuple", "mixed") else v
     src = pick(g.new_p)
     fan = t.draw_small(max_fanout + 1, 0.6)
-    sinks = [pick(g.new_p) for _ in range(fan)]
+    if max_fanout >= 12 and t.draw(40) == 0:
+        # a broadcast-like net: with a small search radius the router then
+        # looks for the nearest tree node by scanning outwards from the sink
+        # instead of scanning the tree
+        fan = 20 + t.draw(41)
+        g.broadcasts += 1
+    sinks = [pick(max(g.new_p, 0.5) if fan >= 20 else g.new_p)
+             for _ in range(fan)]
     if sinks and t.draw(6) == 0:
         sinks.append(sinks[0])              # repeated sink
     if t.draw(8) == 0:
